@@ -14,7 +14,8 @@ RULE = ('Hypothesis **kern scores organised in measures (see C07) x EVERY range 
         '(signatures change after measure 1, also inside sub-spines and on some spines only), "in-split" (a split stays '
         'open across barlines so ranges start inside it), "non-kern" (other spines left in the excerpt); the four '
         'defects found there were repaired (fix: commits 134ff72, b848750, 9b3aeea), so all clauses are now enforced '
-        'in every profile.  Oracle: (1) an independent Humdrum well-formedness '
+        'in every profile.  In a quarter of the scores one spine states its opening signatures late (after some notes or rests), a third '
+        'carry global comment lines between the rows (half of them directly after a barline).  Oracle: (1) an independent Humdrum well-formedness '
         'validator (kv/humdrum.py) accepts the excerpt; (2) kernpy.loads(excerpt) reports no errors; (3) an '
         'independent text-level signature tracker is run over the source and over the excerpt, the k-th note cell of '
         'the excerpt corresponds to the k-th note cell of the range (C07) and its governing (clef, key signature, time '
@@ -38,6 +39,10 @@ PROFILES = {
 @st.composite
 def cases(draw, prof):
     doc = draw(D.measure_documents(D.mprofile(**PROFILES[prof])))
+    if prof in ('core', 'sig-change', 'in-split', 'non-kern') and draw(st.integers(0, 3)) == 0:
+        doc = draw(D.with_late_signatures(doc))  # one spine states its first clef / key / meter after some notes or rests
+    if draw(st.integers(0, 2)) == 0:
+        doc = draw(D.with_global_comments(doc))  # '!!' lines between the rows, half of them directly after a barline
     return {'doc': doc, 'prof': prof}
 
 
